@@ -25,11 +25,13 @@ CHECKS = {
         text="Pool.tla is model-checked for every interleaving of 4 files on 1..3 workers (worker bound, each file once, delivery "
         "in input order, termination); its completion orders become delay schedules for real runs whose recorded Begin/End/Merge "
         "events are validated by Trace_Run (worker bound in every state, merge in input order); runs perturbed in workers, "
-        "schedule, PYTHONHASHSEED (fresh interpreters), creation order and siblings are compared with a reference run.",
+        "schedule, PYTHONHASHSEED (fresh interpreters), creation order and siblings (single-file runs; a 1 035-file project with sites in "
+        "directories tools commonly skip; names differing only by case) are compared with a reference run.  The worker bound for every "
+        "N, W <= 12 is an inductive invariant of the index abstraction PoolAbs.tla, discharged by Apalache (three obligations).",
         design_ref="DESIGN.md §5 C11",
         note="Trusted: TLC, the probes (sequence numbers under one lock, no wall clock), report normalisation (elapsed, directory, "
         "commandLine dropped). Directory enumeration order is varied only through creation order.",
-        technique="TLC model checking of the pool + trace validation of scheduled real runs + differential runs",
+        technique="TLC model checking of the pool + Apalache inductive invariant + trace validation of scheduled real runs + differential runs",
         engine="tlc-gen+trace",
     ),
     "C20": dict(
@@ -123,12 +125,13 @@ CHECKS = {
     ),
     "C10": dict(
         category="fault_enumeration",
-        text="Faults.tla enumerates every placement of one fault (thorough: also two) of every kind (invalid UTF-8, NUL, syntax error, "
+        text="Faults.tla enumerates every placement of one fault (thorough: also two) of every kind (invalid UTF-8, an undecodable byte in a comment only, NUL, syntax error, "
         "empty file, file vanishing mid-run, transformer raising on a file, raising at the n-th visited node) x codemod x file for "
         "three pipeline kinds (detector-less, rule-detected with the real semgrep, Sonar-driven) and derives which steps must be "
         "reported failed and which bytes must stay; each faulty run is paired with its fault-free twin; Trace_Run checks the faulty "
         "trace (failed file untouched and listed, findings unfixed, no exception escapes, report built, exit 0) and Compare events "
-        "check that all other files and results equal the twin's. MC_Run checks C10_FailedUntouched and termination on the design.",
+        "check that all other files and results equal the twin's and that every other codemod treats a file hit by a transformer fault as in "
+        "the twin. MC_Run checks C10_FailedUntouched and termination on the design.",
         design_ref="DESIGN.md §5 C10",
         note="Trusted: TLC, the fault injectors of harness/launcher.py (environment steps are explicit EnvChange events in the trace). "
         "Faults inside semgrep itself are not injected.",
@@ -168,10 +171,13 @@ CHECKS = {
         text="ProgramSpace vectors with queues of 2..3 codemods that touch the same file, the same line or the same manifest, in every "
         "order, are run as one batch invocation and, on a restored copy, as a chain of single-codemod invocations on the evolving tree; "
         "all traces are validated by Trace_Run (Run.tla: aggregates of a codemod come only from its own steps, report = BuildReport); "
-        "Compare events require equal final trees and equal per-codemod results (changesets, failures, dependency notice); thorough "
-        "adds the whole default selection against the chain of the same codemods.",
+        "Compare events require equal final trees and equal per-codemod results (changesets, failures, dependency notice).  "
+        "Prefilter.tla models the single semgrep scan that gates every rule-detected codemod: batch = chain provided no fix creates a "
+        "trigger of a later codemod (refuted without the proviso); the proviso is measured on the real registry (harness/enabling.py: "
+        "K2 reports a change on the expected output of K1's seed but not on its input) and every pair found is run batch vs chain.  "
+        "Thorough adds the whole default selection against the chain of the same codemods and measures the pairs afresh on all seeds.",
         design_ref="DESIGN.md §5 C09",
-        note="Trusted: TLC, result normalisation. Enabling pairs outside the seed programs are not covered.",
+        note="Trusted: TLC, result normalisation. Enabling pairs are searched on the vendored seeds only.",
         technique="TLC trace validation of batch and chained real runs over a TLC-enumerated scenario space + differential comparison",
         engine="tlc-gen+trace",
     ),
@@ -242,10 +248,11 @@ CHECKS = {
     "C18": dict(
         category="exploration",
         text="For each of the rule-detected find-and-fix codemods (those whose detector is a semgrep rule of their own): pinned seeds "
-        "under the Variants.tla feature vectors (nesting, layout, line endings); each project is run for real and once more with "
-        "--dry-run, so the findings the real detector hands to every file step are in the traces (flagged before / flagged after); "
-        "Compare events: every location flagged before lies in a rewritten region or the file is failed, nothing flagged after lies "
-        "in a rewritten region; all traces validated by Trace_Run.",
+        "under the Variants.tla feature vectors (nesting, layout, line endings, the touched statement twice on one line) and runs of TWO "
+        "rule-detected codemods over concatenated seeds (both queue orders: the later detector has to report on the file as the earlier "
+        "codemod left it); each project is run for real and once more with --dry-run, so the findings the real detector hands to every "
+        "(codemod, file) step are in the traces; Compare events: every location flagged before lies in a region that step rewrote or the "
+        "file is failed, nothing flagged after lies in a line the codemod itself wrote; all traces validated by Trace_Run.",
         design_ref="DESIGN.md §5 C18",
         note="The detector is codemodder's own semgrep run (trusted); only variants of seeds pinned in corpus/c18_pins.json are judged; "
         "variations that re-bind names (a declined shape) are left out.",
@@ -257,7 +264,8 @@ CHECKS = {
         text="The documented edit of a hardening codemod on a seed is the one the repository's own test expects (vendored corpus): the "
         "tokens deleted / inserted between input and expected output (identifiers, attribute names, keywords, constants, star markers; "
         "code in source order, import statements as a multiset).  For each of the 22 hardening codemods, seeds are varied along the "
-        "Variants.tla feature vectors and run through the real CLI; the delta of every rewritten file must equal the documented delta "
+        "Variants.tla feature vectors (incl. the argument list of the touched calls extended by `**extra_kw` last / in front of the "
+        "keywords, one more keyword, `**extra_map` in dict arguments) and run through the real CLI; the delta of every rewritten file must equal the documented delta "
         "of its seed - nothing else deleted, inserted or re-ordered; the observation (`bagOk`) is monitored by Trace_Run.",
         design_ref="DESIGN.md §5 C16, §6",
         note="The token oracle is Python's tokenize + difflib, trusted; TLA+ contributes the enumeration and the monitor. Programs outside "
